@@ -120,6 +120,28 @@ def run(ctx):
         for p in ([pos] if pos is not None else range(len(base) + 1)):
             texts.append((base[:p] + chr(cp) + base[p:], False))
     texts += [("", False), (" ", False), ("\n\t ", False), ("k e\nk", True), ("ß", False), ("K", False)]
+    # far beyond the enumerated bound: hundreds of separate whitespace runs, thousands of residues
+    long_seq = common.random_sequences(ctx.rng, 1, 700, 600)[0]
+    texts.append((" ".join(long_seq), True))
+    big = common.random_sequences(ctx.rng, 1, 3000, 2600)[0]
+    texts.append(("\n".join(" ".join(big[i + j:i + j + 10] for j in range(0, 60, 10)) for i in range(0, len(big), 60)), False))
+    # a string is a sequence, never a file name: files of these names exist in the working directory while the check runs
+    cwd = os.getcwd()
+    os.makedirs(ctx.work, exist_ok=True)
+    os.chdir(ctx.work)
+    try:
+        open("READMEKW", "w").write("this is not a sequence file\n")
+        open("notes.txt", "w").write(">x\nKEKEGS\n")
+        open("ACDEF", "w").write(">x\nWWWWWWWW\n")
+        for text in ("READMEKW", "notes.txt", "ACDEF", "readmekw"):
+            e = construct_event(ctx, lc, text, check_battery=False)
+            if e:
+                ok_expected = text != "notes.txt"
+                if e["ok"] != ok_expected or (e["ok"] and "".join(chr(c) for c in e["seq"]) != text.upper()):
+                    ctx.violation("accepted-invalid-text" if e["ok"] else "rejected-valid-text", {"text": text, "note": "a file of this name exists in the working directory"},
+                                  expected=text.upper() if ok_expected else "rejected", actual=(e["ok"], "".join(chr(c) for c in e["seq"])))
+    finally:
+        os.chdir(cwd)
     trs = []
     for i, (text, bat) in enumerate(texts):
         e = construct_event(ctx, lc, text, check_battery=bat and i % 3 == 0)
